@@ -257,6 +257,31 @@ func (ts *TermStore) App(sort Sort, op string, args ...*Term) *Term {
 				return ts.BVConst(w, new(big.Int).Rsh(a, uint(b.Uint64())))
 			}
 			return ts.BVInt(w, 0)
+		case "bvashr":
+			sa := signed(w, a)
+			if b.IsUint64() && b.Uint64() < uint64(w) {
+				return ts.BVConst(w, new(big.Int).Rsh(sa, uint(b.Uint64())))
+			}
+			if sa.Sign() < 0 {
+				return ts.BVConst(w, big.NewInt(-1))
+			}
+			return ts.BVInt(w, 0)
+		case "bvudiv":
+			if b.Sign() != 0 {
+				return ts.BVConst(w, new(big.Int).Quo(a, b))
+			}
+		case "bvurem":
+			if b.Sign() != 0 {
+				return ts.BVConst(w, new(big.Int).Rem(a, b))
+			}
+		case "bvsdiv": // Go and SMT-LIB both truncate toward zero
+			if b.Sign() != 0 {
+				return ts.BVConst(w, new(big.Int).Quo(signed(w, a), signed(w, b)))
+			}
+		case "bvsrem": // sign follows the dividend in both
+			if b.Sign() != 0 {
+				return ts.BVConst(w, new(big.Int).Rem(signed(w, a), signed(w, b)))
+			}
 		}
 	}
 	return ts.mk(sort, op, nil, "", args...)
